@@ -181,6 +181,7 @@ def run(ctx: Ctx) -> None:
             ctx.extra["tie_nodes"] = len(cases)
     finally:
         shutil.rmtree(td, ignore_errors=True)
+    fragment_scan(ctx)
     ctx.resolve_broken({}, b.first_error)
 
 
@@ -222,3 +223,51 @@ def minimal_key(common, node, verdict: str, src: str = "", placeholder: bool = F
     if '"{:{}}".format(' in fixed or '{}}".format(' in fixed:
         return "fstring-nested-spec-desugared"
     return f"{verdict}:{type(node).__name__}"
+
+
+FRAG_CONTEXTS = ("{}", "({})", "{}\n    pass", "@deco\n{}\ndef f(): pass", "with x:\n    {}", "x[{}]", "f({})", "x {}",
+                 "x{}", "{}:\n    pass", "match x:\n    case {}: pass", "match x:\n    {}", "if x:\n    pass\n{}",
+                 "try:\n    pass\n{}", "f'{}'", 'f"{}"')
+
+
+def fragment_parses(frag: str) -> bool:
+    import warnings
+    for w in FRAG_CONTEXTS:
+        if w.startswith("f") and not (frag.startswith("{") and frag.endswith("}")):
+            continue    # an f-string context only for a quoted replacement field
+        try:
+            with warnings.catch_warnings():
+                warnings.simplefilter("ignore")
+                ast.parse(w.replace("{}", frag))
+            return True
+        except (SyntaxError, ValueError):
+            pass
+    return False
+
+
+def fragment_scan(ctx: Ctx) -> None:
+    """Every back-ticked fragment of every diagnostic on test/data is Python (an expression,
+    statement, clause, pattern, decorator or f-string field), unless it is schematic
+    (contains `...`) or a bare piece of text (FURB156 character sets, ' with ')."""
+    import glob
+    import re
+
+    from refurb.main import run_refurb
+    from refurb.settings import Settings
+    from ..core import REPO
+    files = sorted(glob.glob(str(REPO / "test" / "data" / "err_*.py")))
+    out = run_refurb(Settings(files=files, enable_all=True, quiet=True))
+    n = 0
+    for e in out:
+        if isinstance(e, str):
+            continue
+        for frag in re.findall(r"`([^`]*)`", e.msg):
+            n += 1
+            if "..." in frag or e.code == 156 or not frag.strip() or frag.strip() in ("with",):
+                continue
+            ctx.case(("frag", e.code, frag), nontrivial=True)
+            if not fragment_parses(frag):
+                ctx.report(f"unparseable-fragment:FURB{e.code}",
+                           f"FURB{e.code} quotes `{frag}`, which is not Python ({e.filename}:{e.line})",
+                           {"file": e.filename, "line": e.line, "message": e.msg, "fragment": frag})
+    ctx.count("diagnostic-fragments", n)
